@@ -351,8 +351,26 @@ def run(ctx):
                       "Lock.acquire(): run(threaded=True) hangs forever") if (unbounded or untimed) else None
         ctx.ok('R4', 'thread:%s:scanned' % f.name, nontrivial=False)
     init = tmod.func('InterruptableThread.__init__')
-    ctx.check(any(isinstance(n, ast.Assign) and is_self_attr(n.targets[0], 'daemon') and
-                  isinstance(n.value, ast.Constant) and n.value.value is True for n in body_walk(init)),
+    # the constructor executed abstractly against a model of threading.Thread.__init__ (which stores its daemon=
+    # argument): afterwards the thread's daemon flag is True
+    def _thread_is_daemon():
+        from .. import symexec as _sx
+        from ..fdeval import Obj as _Obj
+        me = _sx.self_obj(tmod, 'InterruptableThread')
+
+        def thread_init(*a, **k):
+            if k.get('daemon') is not None:
+                me.attrs['daemon'] = k['daemon']
+            me.attrs.setdefault('daemon', False)
+        sup = _Obj('super')
+        _sx.method(sup, '__init__', thread_init)
+        fd = _sx.new_fd(sym, tmod, calls={'super': lambda *a: sup,
+                                          'threading.Thread.__init__': lambda self_, *a, **k: thread_init(*a, **k),
+                                          'Thread.__init__': lambda self_, *a, **k: thread_init(*a, **k)})
+        _, raised = _sx.run(fd, init, [_sx.marker('func'), (), {}], bound_self=me,
+                            what='InterruptableThread.__init__')
+        return raised is None and me.attrs.get('daemon') is True
+    ctx.check(_thread_is_daemon(),
               'R4', 'thread:daemon', tmod, init, "the student thread is not a daemon thread",
               "a student thread that cannot be interrupted keeps the grader process alive forever")
     term = tmod.func('InterruptableThread.terminate')
